@@ -2724,6 +2724,10 @@ MUTANTS = [
         ("        if len(self.rewards) < 2 * self.n_arms:\n            arm_idx = len(self.rewards) % self.n_arms", "        history_length = len(self.rewards)\n        n_plays = int(history_length)\n        if n_plays < 2 * self.n_arms:\n            arm_idx = n_plays % self.n_arms")]},
 ]
 BENIGN = [
+    # an option added later that happens to carry the role name of other trainers' warm-up parameter; None = "the batch size, as before"
+    {"id": "c11-b-dqn-learning-starts-option", "file": _A + "dqn.py", "edits": [
+        ("    bar: tqdm = None,\n) -> tuple[MLP, nnx.Optimizer]:\n    \"\"\"Deep Q Learning with Experience Replay", "    bar: tqdm = None,\n    learning_starts: int | None = None,\n) -> tuple[MLP, nnx.Optimizer]:\n    \"\"\"Deep Q Learning with Experience Replay"),
+        ("        if step > batch_size:", "        if step > (batch_size if learning_starts is None else learning_starts):")]},
     {"id": "c11-b-amt-warm-up-int", "file": _A + "active_mt.py", "find": '            learning_starts=learning_starts,\n            total_timesteps=total_timesteps,\n', "replace": '            learning_starts=int(learning_starts),\n            total_timesteps=total_timesteps,\n'},
     {"id": "c11-b-td3-rename-counter", "file": _A + "td3.py", "all": True, "find": "episode_idx", "replace": "n_episodes_done"},
     {"id": "c11-b-td3-inc-before-bar", "file": _A + "td3.py", "find": "        bar.update()\n        step += 1\n", "replace": "        step += 1\n        bar.update()\n"},
